@@ -45,7 +45,9 @@ def run_graph_range(args: dict, out) -> None:
     samples = []
     t0 = time.time()
     done = 0
-    for s in range(args["lo"], args["hi"]):
+    from order import scenario_order
+
+    for s in scenario_order(args["lo"], args["hi"], seed, wid):
         if time.time() - t0 > args.get("wall", 1e9):
             break
         case = gen.GENERATORS[prop](seed, s, wid, tier)
@@ -89,6 +91,25 @@ def _sample(case: dict, cr) -> dict:
             for p in case["pops"]
         ],
     }
+
+
+def run_prefix(prefix: dict | None) -> None:
+    """Re-execute the scenarios that ran earlier in the same interpreter (for history-dependent violations)."""
+    if not prefix or not prefix.get("ids"):
+        return
+    if prefix["prop"] in ("C14", "C02"):
+        import gen
+        from graphsim import run_case
+
+        for s in prefix["ids"]:
+            run_case(gen.GENERATORS[prefix["prop"]](prefix["seed"], s, prefix["wid"], prefix["tier"]))
+    else:
+        import c11sim
+
+        for s in prefix["ids"]:
+            c = c11sim.gen_case(prefix["seed"], s)
+            c["eval_order"] = c11sim.eval_order(c, prefix["wid"])
+            c11sim.run_one_case(c)
 
 
 def serve() -> None:
@@ -135,6 +156,7 @@ def main() -> None:
 
                 case = c11sim.gen_case(args["seed"], args["s"])
                 case["hashseed"] = args["hashseed"]
+                case["eval_order"] = c11sim.eval_order(case, args["wid"])
                 res = c11sim.run_one_case(case)
                 out.write(json.dumps({"t": "regen", "case": case, "xv": res["xv"], "xd": res["xd"]}) + "\n")
         elif mode == "run":
@@ -145,7 +167,9 @@ def main() -> None:
 
                 c11sim.run_range(args, out)
         elif mode == "replay":
-            case = json.load(open(args["file"]))["case"]
+            doc = json.load(open(args["file"]))
+            case = doc["case"]
+            run_prefix(doc.get("prefix"))
             if case["prop"] in ("C14", "C02"):
                 from graphsim import run_case
 
